@@ -78,8 +78,32 @@ def nd_match(path):
     return any(path.startswith(x) or ("::" + x) in path for x in ND_SOURCES)
 
 
+def nd_calls(F, reach):
+    """(number of call sites scanned, [(fn, call)] that are nondeterminism sources outside logging expansions)."""
+    n, out = 0, []
+    for fid in sorted(reach):
+        fn = F.fns[fid]
+        for c in fn.calls:
+            n += 1
+            if nd_match(c.path) and not lib.is_logging_expansion(c.ex) and not census.site_generated(c.ex):
+                out.append((fn, c))
+    return n, out
+
+
+def is_hash_iteration(c):
+    """The call starts an iteration over a hash-ordered collection (the iterator's own into_iter is not counted twice)."""
+    if not c.path.endswith(ITER_METHODS):
+        return False
+    recv = c.atys[0] if c.atys else ""
+    if any(t in recv.split("<")[0] + "<" for t in ITERATOR_TYPES):
+        return False
+    return any(h in recv for h in HASH_TYPES)
+
+
 def check(ctx):
     F = ctx.facts("prod")
+    from props import controls
+    controls.require(ctx, "nd-source", "hash-iter")
     ctx.clause("R-NOSRC no reachable call to a clock / random / env / thread / process-id source (positive control on the matcher)")
     ctx.clause("R-REACH hash-order census: every HashMap/HashSet/MultiMap iteration in reachable hand-written code is a reasoned row")
     ctx.clause("R-TYPE JValue::Object is a BTreeMap")
@@ -88,14 +112,10 @@ def check(ctx):
                 "the nondeterminism matcher fires on %d positive controls and stays silent on %d negative ones" % (len(POSITIVE_CONTROL), len(NEGATIVE_CONTROL)), "the nondeterminism-source matcher is broken")
     reach, parent, roots, extra = census.reach_set(F)
     ctx.analysed.setdefault("prod", {})["reachable_functions"] = len(reach)
-    n_calls = 0
-    for fid in sorted(reach):
-        fn = F.fns[fid]
-        for c in fn.calls:
-            n_calls += 1
-            if nd_match(c.path) and not lib.is_logging_expansion(c.ex) and not census.site_generated(c.ex):
-                ctx.violation("R-NOSRC", "source:%s|%s" % (fn.path, c.path), "nondeterminism source `%s` called in %s (reachable from an entry point) at %s" % (c.path, fn.path, c.loc()),
-                              {"chain": [F.fns[x].path for x in F.chain(parent, fid)][-6:]})
+    n_calls, nd = nd_calls(F, reach)
+    for fn, c in nd:
+        ctx.violation("R-NOSRC", "source:%s|%s" % (fn.path, c.path), "nondeterminism source `%s` called in %s (reachable from an entry point) at %s" % (c.path, fn.path, c.loc()),
+                      {"chain": [F.fns[x].path for x in F.chain(parent, fn.id)][-6:]})
     ctx.examined(n_calls)
     ctx.ok("R-NOSRC", "sources:none", "%d reachable call sites scanned, none is a nondeterminism source" % n_calls, sample={"call_sites_scanned": n_calls})
     ctx.floor("R-NOSRC", "reachable call sites scanned", n_calls, 10000)
@@ -127,13 +147,9 @@ def check(ctx):
                 for k in cand:
                     seen_rows.add(k)
                 continue
-            if not c.path.endswith(ITER_METHODS):
+            if not is_hash_iteration(c):
                 continue
             recv = c.atys[0] if c.atys else ""
-            if any(t in recv.split("<")[0] + "<" for t in ITERATOR_TYPES):
-                continue      # `for x in map.iter()`: the into_iter of the iterator itself, already counted at `.iter()`
-            if not any(h in recv for h in HASH_TYPES):
-                continue
             n_sites += 1
             owner = fn.path.split("::{closure")[0]
             short = c.path.split("::")[-1]
